@@ -116,6 +116,50 @@ func runC10(s *core.Sim, tier string) RunInfo {
 	}
 	for c := 0; c < ncases && !s.Failed(); c++ {
 		kind := core.Pick(s.Tape, "req-kind", []string{"range", "range", "range", "range", "hash", "garbage", "slow-store", "half-frame", "dirty-then-short", "two-hashes", "range-growing"})
+		if c == ncases-1 && s.Tape.Coin("server-stopped-mid-request", 1, 3) {
+			// the last request of the run is in flight (the store takes its time) when the server is
+			// stopped: the client sees the end of its stream, nothing panics, nothing false is sent
+			origin := core.Pick(s.Tape, "origin", origins[3:8])
+			amount := core.Pick(s.Tape, "amount", []uint64{1, 5, 64})
+			d := time.Duration(20+s.Tape.Draw("slow-ms", 400)) * time.Millisecond
+			xs.Rec.Delay = func(string) time.Duration { return d }
+			cases = append(cases, fmt.Sprintf("range origin=%d amount=%d, server stopped meanwhile", origin, amount))
+			var resp rawResp
+			tr := s.Go("request", func() {
+				resp = w.rawRequest(1, frameReq(&p2p_pb.HeaderRequest{Data: &p2p_pb.HeaderRequest_Origin{Origin: origin}, Amount: amount}), true, maxWait)
+			})
+			var stopErr error
+			ts := s.Go("server-stop", func() {
+				s.YieldAfter("stop-after", time.Duration(s.Tape.Draw("stop-after-ms", 300))*time.Millisecond)
+				cc, cancel := context.WithTimeout(context.Background(), time.Minute)
+				defer cancel()
+				stopErr = xs.Srv.Stop(cc)
+			})
+			stuck := s.Settle(maxWait+time.Minute, tr, ts)
+			xs.Rec.Delay = nil
+			xs.Srv = nil // stopped: nothing for the teardown to stop
+			for _, tk := range []*core.Task{tr, ts} {
+				if tk.Panic != nil {
+					s.Violate("panic", map[string]string{"racing": "server-stop"}, "%s panicked: %v\n%s", tk.Name, tk.Panic, tk.Stack)
+				}
+			}
+			if len(stuck) > 0 || resp.timedOut {
+				s.Violate("server-hang", map[string]string{"req": "range", "racing": "server-stop"}, "request in flight while the server was stopped: not finished within %v (stop err %v)", maxWait, stopErr)
+				break
+			}
+			for i, f := range resp.frames {
+				if f.StatusCode != p2p_pb.StatusCode_OK {
+					continue
+				}
+				h := new(simhdr.H)
+				if err := h.UnmarshalBinary(f.Body); err != nil || !simhdr.Equal(h, w.Ch.At(origin+uint64(i))) || origin+uint64(i) > H || origin+uint64(i) < tail {
+					s.Violate("false-data", map[string]string{"req": "range", "racing": "server-stop"}, "request origin=%d amount=%d while the server was stopped: frame %d is %v (err %v)", origin, amount, i, h, err)
+					break
+				}
+			}
+			s.Probe("server-stopped-mid-request")
+			break
+		}
 		if kind == "range-growing" {
 			// the server's store grows while a range request near its head is being served (every
 			// store call of the server is a park point here): still no more than the requested
